@@ -808,6 +808,41 @@ impl<'a> FastCheckTransformer<'a> {
                 TsParamPropParam::Ident(ident) => ident.optional,
                 TsParamPropParam::Assign(_) => false,
               };
+              // the property made from a parameter property needs a type of
+              // its own: a default value that is merely left in place on the
+              // parameter says nothing about the property, and the parameters
+              // of a private constructor are not looked at again
+              if prop.accessibility != Some(Accessibility::Private) {
+                let untyped_ident = match &prop.param {
+                  TsParamPropParam::Ident(ident) => {
+                    ident.type_ann.is_none().then_some(&ident.id)
+                  }
+                  TsParamPropParam::Assign(assign) => match &*assign.left {
+                    Pat::Ident(ident)
+                      if ident.type_ann.is_none()
+                        && self
+                          .maybe_infer_type_from_expr(
+                            &assign.right,
+                            match prop.readonly {
+                              true => DeclMutabilityKind::Const,
+                              false => DeclMutabilityKind::Mutable,
+                            },
+                          )
+                          .is_none() =>
+                    {
+                      Some(&ident.id)
+                    }
+                    _ => None,
+                  },
+                };
+                if let Some(id) = untyped_ident {
+                  self.mark_diagnostic(
+                    FastCheckDiagnostic::MissingExplicitType {
+                      range: self.source_range_to_range(id.range()),
+                    },
+                  )?;
+                }
+              }
               insert_members.push(ClassMember::ClassProp(ClassProp {
                 span: DUMMY_SP,
                 key: match &prop.param {
